@@ -220,6 +220,8 @@ class FakeResponse:
 def make_requests(world, etags, fl):
     """fake `requests` module: one server holding the world's document."""
     calls = []
+    mod = types.ModuleType("requests")
+    mod.n304 = 0
 
     class HTTPError(Exception):
         pass
@@ -240,6 +242,7 @@ def make_requests(world, etags, fl):
         b = world.store[0]
         et = '"%s"' % md5(b)
         if etags and headers.get("If-None-Match") == et:
+            mod.n304 += 1
             r.status_code = 304
             r.headers = {"ETag": et} if fl.get("etag304") else {}
             r.raise_for_status = lambda: None
@@ -270,7 +273,6 @@ def make_requests(world, etags, fl):
             r.content = raw
         return r
 
-    mod = types.ModuleType("requests")
     mod.get = get
     mod.HTTPError = HTTPError
     mod._calls = calls
@@ -444,7 +446,7 @@ class Setup:
         from rbacx.core.engine import Guard
 
         self.loader = loader
-        kind = c["kind"]
+        kind = self.kind = c["kind"]
         fl = c.get("flavour", {})
         self.tmp = None
         self.saved_requests = sys.modules.get("requests", "absent")
@@ -492,6 +494,12 @@ class Setup:
         return [res, pol_id(self.guard.policy), self.cache.clears, self.probe.n_etag, self.probe.n_load,
                 r.last_etag, r.last_error is not None, r.suppressed_until, getattr(r, "_backoff", None)]
 
+    def src_obs(self):
+        """source-specific observables (model: ReloadRun.obs_http): HTTP: remembered ETag, number of 304 answers."""
+        if self.kind[0] == "http":
+            return [getattr(self.src, "_etag", None), self.requests.n304]
+        return None
+
     def close(self):
         self.loader.time, self.loader.random = self.saved_time, self.saved_random
         if self.saved_requests == "absent":
@@ -512,12 +520,14 @@ def impl_run(c):
         return out
     loop = asyncio.new_event_loop()
     try:
+        out["obs"] = [su.src_obs()]
         out["snaps"].append(su.snap(None))
         out["primed"] = su.r.last_etag
         for ix, cmd in enumerate(c["script"]):
             if cmd[0] == "ev":
                 su.world.apply(cmd[1])
                 out["snaps"].append(su.snap(None))
+                out["obs"].append(su.src_obs())
                 out["checks"].append(None)
                 continue
             if cmd[0] != "check":
@@ -560,6 +570,7 @@ def impl_run(c):
                     "after_content": su.world.content()}
             out["checks"].append(info)
             out["snaps"].append(su.snap(res if raised is None else "raised"))
+            out["obs"].append(su.src_obs())
         out["final_loadable_doc"] = su.world.loadable_doc()
         out["src_etag_attr"] = getattr(su.src, "_etag", None) if c["kind"][0] == "http" else None
     except Exception as e:  # noqa: BLE001
@@ -1317,6 +1328,10 @@ def check_cases(chk, cases, replay=False):
             continue
         for ix, (i_s, m_s) in enumerate(zip(out["snaps"], m_out)):
             bad = compare_snap(i_s, m_s)
+            i_obs, m_obs = out["obs"][ix], m_s[10]
+            if i_obs is not None and (i_obs[0] != tag_str(m_obs[0]) or i_obs[1] != m_obs[1]):
+                bad.append("HTTP source: remembered ETag / number of 304 answers (impl %r, model %r)"
+                           % (i_obs, [tag_str(m_obs[0]), m_obs[1]]))
             if bad:
                 chk.corr_break("HotReloader/source observables differ from the model after command %d: %s"
                                % (ix - 1, ", ".join(bad)), c,
